@@ -4,9 +4,13 @@
    int()/float() themselves are ORACLE inputs (orc_int, orc_float): the harness evaluates the real Python
    functions on every stripped text occurring in a case and passes the table.  orc_float returns
    (repr(x), math.isfinite(x), x == 0) for x = float(text).  A ValueError/OverflowError is None.
-   The mantissa test of the underflow guard (80b6126) is pure string processing and is computed HERE, not by the
-   oracle: mantissa = lower(text) up to the first 'e'; the guard fires iff x == 0 and the mantissa has a char of
-   "123456789" (split char, lower flag, digit set and the guard ORDER are consumed from Gen/RepairGen.v). *)
+   The mantissa test of the underflow guard (80b6126, 0b7941a) is string processing computed HERE: mantissa =
+   lower(text) up to the first 'e'; the guard fires iff x == 0 and some character of the mantissa satisfies
+   `ch.isdecimal() and int(ch) != 0`.  For ASCII characters that test is computed in Gallina ('1'..'9'); for a
+   non-ASCII character the decimal value comes from the third oracle orc_digit (char -> Some (int(ch)) iff
+   ch.isdecimal(); a per-case table computed by the harness with the real str.isdecimal / int).
+   Split char, lower flag, WHICH per-character test the source uses (repair_mantissa_digit_test: 2 = the one above,
+   1 = membership in a literal ASCII table, the test of 80b6126) and the guard ORDER are consumed from Gen/RepairGen.v. *)
 From OV Require Import Base.Strs Rep.Ast Gen.RepairGen.
 From Coq Require Import ZArith.
 Open Scope N_scope.
@@ -60,18 +64,29 @@ Definition use_int (st : str) : bool :=
 (* value_stripped.lower().split('e')[0] : the text before the first split char *)
 Definition mantissa (st : str) : str :=
   takeb (fun c => negb (c =? repair_mantissa_split)) (if repair_mantissa_lower =? 1 then lower st else st).
-(* any(ch in "123456789" for ch in mantissa) *)
-Definition nonzero_mantissa (st : str) : bool := existsb (fun c => memb c repair_mantissa_digits) (mantissa st).
+(* Python's view of one character: Some (int(ch)) iff ch.isdecimal().  ASCII: exactly '0'..'9'; else the oracle *)
+Definition decimal_value (orc_digit : N -> option N) (c : N) : option N :=
+  if c <? 128 then (if (48 <=? c) && (c <=? 57) then Some (c - 48) else None) else orc_digit c.
+(* the per-character test the source applies to the mantissa *)
+Definition mantissa_digit_test (orc_digit : N -> option N) (c : N) : bool :=
+  if repair_mantissa_digit_test =? 1 then memb c repair_mantissa_digits                     (* ch in '<table>' *)
+  else if repair_mantissa_digit_test =? 2                                                   (* ch.isdecimal() and int(ch) != 0 *)
+       then match decimal_value orc_digit c with Some v => negb (v =? 0) | None => false end
+  else false.
+(* any(<test> for ch in mantissa) *)
+Definition nonzero_mantissa (orc_digit : N -> option N) (st : str) : bool :=
+  existsb (mantissa_digit_test orc_digit) (mantissa st).
 
 (* the rejecting guards after `coerced = float(value_stripped)`; fin = math.isfinite(coerced), zero = (coerced == 0) *)
-Definition float_guard_holds (g : N) (st : str) (fin zero : bool) : bool :=
+Definition float_guard_holds (orc_digit : N -> option N) (g : N) (st : str) (fin zero : bool) : bool :=
   if g =? 1 then negb fin
-  else if g =? 2 then zero && nonzero_mantissa st
+  else if g =? 2 then zero && nonzero_mantissa orc_digit st
   else false.
 
 Section Oracle.
   Variable orc_int : str -> option Z.
   Variable orc_float : str -> option (str * bool * bool).
+  Variable orc_digit : N -> option N.
 
   Definition attempt_type (v : value) (t : str) : option (value * entry) :=
     if negb (str_eqb t repair_number_type) then None
@@ -88,7 +103,7 @@ Section Oracle.
                       end
                  else match orc_float st with
                       | Some (r, fin, zero) =>
-                          if existsb (fun g => float_guard_holds g st fin zero) repair_float_guards then None
+                          if existsb (fun g => float_guard_holds orc_digit g st fin zero) repair_float_guards then None
                           else Some (VFloat r, mk_entry repair_rule_type s r repair_tier_type)
                       | None => None
                       end
@@ -176,7 +191,7 @@ Proof. reflexivity. Qed.
 Lemma repair_float_guards_pin : repair_float_guards = [1; 2].
 Proof. reflexivity. Qed.
 Lemma repair_mantissa_pin :
-  repair_mantissa_split = 101 /\ repair_mantissa_lower = 1 /\ repair_mantissa_digits = [49; 50; 51; 52; 53; 54; 55; 56; 57].
+  repair_mantissa_split = 101 /\ repair_mantissa_lower = 1 /\ repair_mantissa_digit_test = 2 /\ repair_mantissa_digits = [].
 Proof. repeat split; reflexivity. Qed.
 Lemma repair_tiers_are_REPAIR :
   repair_tier_enum = [82; 69; 80; 65; 73; 82] /\ repair_tier_type = [82; 69; 80; 65; 73; 82].
@@ -191,5 +206,9 @@ Fixpoint tbl_find (t : orc_tbl) (s : str) : option (option Z * option (str * boo
 Definition tbl_int (t : orc_tbl) (s : str) : option Z := match tbl_find t s with Some (i, _) => i | None => None end.
 Definition tbl_float (t : orc_tbl) (s : str) : option (str * bool * bool) := match tbl_find t s with Some (_, f) => f | None => None end.
 (* strings the oracle is asked about but which are missing from the table: the driver reports them *)
-Definition repair_tbl (t : orc_tbl) (fix_ : bool) (sch : option schema) (d : list node) : list node * list entry :=
-  repair (tbl_int t) (tbl_float t) fix_ sch d.
+(* digit oracle table: non-ASCII character -> its decimal value (absent = not str.isdecimal()) *)
+Definition dig_tbl := list (N * N).
+Fixpoint dig_find (t : dig_tbl) (c : N) : option N :=
+  match t with [] => None | (k, v) :: t' => if c =? k then Some v else dig_find t' c end.
+Definition repair_tbl (t : orc_tbl) (dt : dig_tbl) (fix_ : bool) (sch : option schema) (d : list node) : list node * list entry :=
+  repair (tbl_int t) (tbl_float t) (dig_find dt) fix_ sch d.
